@@ -403,6 +403,48 @@ func (g *tkGen) issueShadow() (rig.Tx, bool) {
 	return rig.Tx{}, false
 }
 
+// zeroCap walks one token through: issued without supply, without a maximum and not mintable (the stored maximum is
+// 0), made mintable by an edit that leaves the maximum alone, handed to another owner. Each call takes the next step.
+func (g *tkGen) zeroCap() (rig.Tx, bool) {
+	var t *v1.Token
+	for i := range g.s.Tokens {
+		if strings.HasPrefix(g.s.Tokens[i].Symbol, "zcap") {
+			t = &g.s.Tokens[i]
+		}
+	}
+	switch {
+	case t == nil:
+		a := g.anyAcc()
+		if a == nil {
+			return rig.Tx{}, false
+		}
+		sym := "zcap" + g.fresh(4)
+		return g.mk(a, &tkTag{Kind: "issue", Role: "owner", Var: "zero-cap", Sym: sym}, &v1.MsgIssueToken{Symbol: sym, Name: "zero cap", Scale: 2, MinUnit: "mz" + g.fresh(5), InitialSupply: 0, MaxSupply: 0, Mintable: false, Owner: a.Addr.String()})
+	case !t.Mintable:
+		a := g.acc(t.Owner)
+		if a == nil {
+			return rig.Tx{}, false
+		}
+		return g.mk(a, &tkTag{Kind: "edit", Role: "owner", Var: "zero-cap-made-mintable", Sym: t.Symbol}, &v1.MsgEditToken{Symbol: t.Symbol, Name: v1.DoNotModify, MaxSupply: 0, Mintable: tokentypes.True, Owner: t.Owner})
+	default:
+		a := g.acc(t.Owner)
+		if a == nil {
+			return rig.Tx{}, false
+		}
+		var dst string
+		for _, b := range g.accs {
+			if b != a && !g.poisoned[b.Addr.String()] {
+				dst = b.Addr.String()
+				break
+			}
+		}
+		if dst == "" {
+			return rig.Tx{}, false
+		}
+		return g.mk(a, &tkTag{Kind: "transfer", Role: "owner", Sym: t.Symbol}, &v1.MsgTransferTokenOwner{SrcOwner: t.Owner, DstOwner: dst, Symbol: t.Symbol})
+	}
+}
+
 // issueDup re-issues a taken symbol and/or min unit, by anyone.
 func (g *tkGen) issueDup() (rig.Tx, bool) {
 	rng := g.rng
@@ -870,6 +912,8 @@ func (g *tkGen) make(kind string) (rig.Tx, bool) {
 		return g.issueDup()
 	case "issue-shadow":
 		return g.issueShadow()
+	case "zero-cap":
+		return g.zeroCap()
 	case "mint":
 		return g.mint(false)
 	case "mint-hostile":
@@ -925,6 +969,7 @@ type tkModelToken struct {
 	Name            string
 	Prev            []string
 	Genesis         bool
+	MaxKnown        bool // Max is the stored maximum even if it is 0
 }
 
 type tkModel struct {
@@ -936,7 +981,7 @@ type tkModel struct {
 func newTkModel(s *tkSnap) *tkModel {
 	m := &tkModel{bySymbol: map[string]*tkModelToken{}, byMin: map[string]*tkModelToken{}, burned: map[string]*big.Int{}}
 	for _, t := range s.Tokens {
-		mt := &tkModelToken{Symbol: t.Symbol, MinUnit: t.MinUnit, Scale: t.Scale, Initial: t.InitialSupply, Owner: t.Owner, Mintable: t.Mintable, Max: t.MaxSupply, Name: t.Name, Genesis: true}
+		mt := &tkModelToken{Symbol: t.Symbol, MinUnit: t.MinUnit, Scale: t.Scale, Initial: t.InitialSupply, Owner: t.Owner, Mintable: t.Mintable, Max: t.MaxSupply, Name: t.Name, Genesis: true, MaxKnown: true}
 		m.bySymbol[t.Symbol] = mt
 		m.byMin[t.MinUnit] = mt
 	}
@@ -966,7 +1011,7 @@ func runTokenC09(run *ev.Run, c int) {
 	script := [][]string{
 		{"issue", "issue", "issue", "issue"}, {"issue", "issue", "send", "send"}, {"mint", "mint", "burn", "burn"},
 		{"issue-dup", "issue-dup", "burn", "edit"}, {"transfer", "burn", "edit"}, {"transfer-hostile", "mint-hostile", "edit-hostile"},
-		{"transfer", "mint", "issue-dup"}, {"transfer-hostile", "mint-hostile", "edit-hostile", "edit"}, {"params", "issue", "mint"},
+		{"transfer", "mint", "issue-dup", "zero-cap"}, {"transfer-hostile", "mint-hostile", "edit-hostile", "edit", "zero-cap"}, {"params", "issue", "mint", "zero-cap"},
 		{"params-tax0"}, {"issue-plain", "mint-plain"}, {"issue-plain", "mint-plain"}, {"params-tax1"}, {"issue-plain", "mint-plain"}, {"issue-plain", "mint-plain"},
 	}
 	kinds := []string{"issue", "issue-dup", "mint", "mint-hostile", "edit", "edit-hostile", "burn", "burn-hostile", "transfer", "transfer-hostile", "params", "send"}
@@ -1184,8 +1229,9 @@ func (d *tkC09) accepted(br *rig.BlockRecord, tx *rig.TxRecord, tag *tkTag, pre,
 		addSup(msg.MinUnit, minted)
 		mt := &tkModelToken{Symbol: msg.Symbol, MinUnit: msg.MinUnit, Scale: msg.Scale, Initial: msg.InitialSupply, Owner: msg.Owner, Mintable: msg.Mintable, Max: msg.MaxSupply, Name: msg.Name}
 		if pt := post.bySymbol(msg.Symbol); pt != nil && msg.MaxSupply == 0 {
-			mt.Max = pt.MaxSupply // default maximum chosen by the module
+			mt.Max = pt.MaxSupply // default maximum chosen by the module (0 for a non-mintable token issued without supply)
 		}
+		mt.MaxKnown = true
 		// the first token keeps each identifier in the reference registry
 		if m.bySymbol[msg.Symbol] == nil {
 			m.bySymbol[msg.Symbol] = mt
@@ -1414,7 +1460,7 @@ func (d *tkC09) checkRegistry(tx *rig.TxRecord, tag *tkTag, post *tkSnap) {
 		if t.Mintable != mt.Mintable {
 			bad("mintable", mt.Mintable, t.Mintable)
 		}
-		if mt.Max != 0 && t.MaxSupply != mt.Max {
+		if (mt.Max != 0 || mt.MaxKnown) && t.MaxSupply != mt.Max {
 			bad("max-supply", mt.Max, t.MaxSupply)
 		}
 		if t.Name != mt.Name {
